@@ -8,6 +8,7 @@ import itertools
 import sys
 
 from trie.exceptions import InvalidNode
+from trie.typing import Nibbles
 from trie.utils import binaries as B
 from trie.utils import nibbles as NB
 from trie.utils import nodes as ND
@@ -62,6 +63,22 @@ def run_case(case, ctx):
         _check(e == exp, "hp-encode", "encode_nibbles(%r)=%s, HP=%s" % (x, hx(e), hx(exp)))
         d = cut(NB.decode_nibbles, exp)
         _check(tuple(d) == x, "hp-decode", "decode_nibbles(%s)=%r, expected %r" % (hx(exp), d, x))
+        # "any nibble sequence": the same answers for a list and (unterminated) for a Nibbles
+        el = cut(NB.encode_nibbles, list(x))
+        _check(el == exp, "hp-encode", "encode_nibbles(%r)=%s (list input), HP=%s" % (list(x), hx(el), hx(exp)))
+        if not t:
+            en = cut(NB.encode_nibbles, Nibbles(n))
+            _check(en == exp, "hp-encode", "encode_nibbles(Nibbles(%r))=%s, HP=%s" % (n, hx(en), hx(exp)))
+        for form in (x, list(x)):
+            _check(bool(cut(NB.is_nibbles_terminated, form)) == bool(t), "hp-terminator",
+                   "is_nibbles_terminated(%r) is %s" % (form, not t))
+            a = cut(NB.add_nibbles_terminator, form)
+            _check(tuple(a) == n + (16,), "hp-terminator", "add_nibbles_terminator(%r)=%r" % (form, a))
+            r = cut(NB.remove_nibbles_terminator, form)
+            _check(tuple(r) == n, "hp-terminator", "remove_nibbles_terminator(%r)=%r" % (form, r))
+        kl = cut(ND.compute_leaf_key, list(n)) if t else cut(ND.compute_extension_key, list(n))
+        _check(kl == exp, "hp-encode", "compute_*_key(%r)=%s (list input), HP=%s" % (list(n), hx(kl), hx(exp)))
+        ctx.count("hp_list_inputs")
         # the node-level helpers built on it
         if t:
             k = cut(ND.compute_leaf_key, n)
